@@ -252,9 +252,9 @@ static const codec_t CODECS[] = {
     {.name = "for.nullmeta", .encname = "varintFOREncode", .decname = "varintFORBatchDecode", .elembits = 64, .bound = b_for, .boundname = "varintFORSize", .bound_exact = true, .encode = e_for_null, .decode = d_for_batch, .getat = g_for},
     {.name = "for.batch", .encname = "varintFORBatchEncode", .decname = "varintFORBatchDecode", .elembits = 64, .bound = b_for, .boundname = "varintFORSize", .bound_exact = true, .encode = e_for_batch, .decode = d_for_batch, .getat = g_for, .decode_cap = c_for_batch, .cap_may_refuse = true},
     {.name = "for.batchenc-scalardec", .encname = "varintFORBatchEncode", .decname = "varintFORDecode", .elembits = 64, .bound = b_for, .boundname = "varintFORSize", .bound_exact = true, .encode = e_for_batch, .decode = d_for, .getat = g_for},
-    {.name = "pfor.90", .encname = "varintPFOREncode", .decname = "varintPFORDecode", .elembits = 64, .maxlen = 200000, .bound = b_pfor90, .boundname = "varintPFORSize", .encode = e_pfor90, .decode = d_pfor_hdr, .getat = g_pfor, .param = 90},
-    {.name = "pfor.95", .encname = "varintPFOREncode", .decname = "varintPFORDecode", .elembits = 64, .maxlen = 200000, .bound = b_pfor95, .boundname = "varintPFORSize", .encode = e_pfor95, .decode = d_pfor_meta, .getat = g_pfor_readmeta, .param = 95},
-    {.name = "pfor.99", .encname = "varintPFOREncode", .decname = "varintPFORDecode", .elembits = 64, .maxlen = 200000, .bound = b_pfor99, .boundname = "varintPFORSize", .encode = e_pfor99, .decode = d_pfor_hdr, .getat = g_pfor, .param = 99},
+    {.name = "pfor.90", .encname = "varintPFOREncode", .decname = "varintPFORDecode", .elembits = 64, .bound = b_pfor90, .boundname = "varintPFORSize", .encode = e_pfor90, .decode = d_pfor_hdr, .getat = g_pfor, .param = 90},
+    {.name = "pfor.95", .encname = "varintPFOREncode", .decname = "varintPFORDecode", .elembits = 64, .bound = b_pfor95, .boundname = "varintPFORSize", .encode = e_pfor95, .decode = d_pfor_meta, .getat = g_pfor_readmeta, .param = 95},
+    {.name = "pfor.99", .encname = "varintPFOREncode", .decname = "varintPFORDecode", .elembits = 64, .bound = b_pfor99, .boundname = "varintPFORSize", .encode = e_pfor99, .decode = d_pfor_hdr, .getat = g_pfor, .param = 99},
     {.name = "group", .encname = "varintGroupEncode", .decname = "varintGroupDecode", .elembits = 64, .domain = DOM_GROUP, .maxlen = 64, .bound = b_group, .boundname = "varintGroupSize", .bound_exact = true, .encode = e_group, .decode = d_group, .getat = g_group, .decode_cap = c_group, .cap_may_refuse = true},
     {.name = "group.putget", .encname = "varintGroupPut", .decname = "varintGroupGet", .elembits = 64, .domain = DOM_GROUP, .maxlen = 64, .bound = b_group, .boundname = "varintGroupSize", .bound_exact = true, .encode = e_group_put, .decode = d_group_get, .getat = g_group},
     {.name = "dict", .encname = "varintDictEncode", .decname = "varintDictDecode", .elembits = 64, .domain = DOM_DICT, .bound = b_dict, .boundname = "varintDictEncodedSize", .bound_exact = true, .encode = e_dict, .decode = d_dict},
@@ -273,7 +273,7 @@ static const codec_t CODECS[] = {
     {.name = "adaptive.auto", .encname = "varintAdaptiveEncode", .decname = "varintAdaptiveDecode", .elembits = 64, .domain = DOM_DICT, .maxlen = 200000, .bound = b_adaptive, .boundname = "varintAdaptiveMaxSize", .encode = e_ad_auto, .decode = d_adaptive, .decode_cap = c_adaptive, .param = -1},
     {.name = "adaptive.DELTA", .encname = "varintAdaptiveEncodeWith(DELTA)", .decname = "varintAdaptiveDecode(DELTA)", .elembits = 64, .bound = b_adaptive, .boundname = "varintAdaptiveMaxSize", .encode = e_ad_delta, .decode = d_adaptive, .decode_cap = c_adaptive, .param = VARINT_ADAPTIVE_DELTA},
     {.name = "adaptive.FOR", .encname = "varintAdaptiveEncodeWith(FOR)", .decname = "varintAdaptiveDecode(FOR)", .elembits = 64, .bound = b_adaptive, .boundname = "varintAdaptiveMaxSize", .encode = e_ad_for, .decode = d_adaptive, .decode_cap = c_adaptive, .cap_may_refuse = true, .param = VARINT_ADAPTIVE_FOR},
-    {.name = "adaptive.PFOR", .encname = "varintAdaptiveEncodeWith(PFOR)", .decname = "varintAdaptiveDecode(PFOR)", .elembits = 64, .maxlen = 200000, .bound = b_adaptive, .boundname = "varintAdaptiveMaxSize", .encode = e_ad_pfor, .decode = d_adaptive, .decode_cap = c_adaptive, .cap_may_refuse = true, .param = VARINT_ADAPTIVE_PFOR},
+    {.name = "adaptive.PFOR", .encname = "varintAdaptiveEncodeWith(PFOR)", .decname = "varintAdaptiveDecode(PFOR)", .elembits = 64, .bound = b_adaptive, .boundname = "varintAdaptiveMaxSize", .encode = e_ad_pfor, .decode = d_adaptive, .decode_cap = c_adaptive, .cap_may_refuse = true, .param = VARINT_ADAPTIVE_PFOR},
     {.name = "adaptive.DICT", .encname = "varintAdaptiveEncodeWith(DICT)", .decname = "varintAdaptiveDecode(DICT)", .elembits = 64, .domain = DOM_DICT, .bound = b_adaptive, .boundname = "varintAdaptiveMaxSize", .encode = e_ad_dict, .decode = d_adaptive, .decode_cap = c_adaptive, .cap_may_refuse = true, .param = VARINT_ADAPTIVE_DICT},
     {.name = "adaptive.BITMAP", .encname = "varintAdaptiveEncodeWith(BITMAP)", .decname = "varintAdaptiveDecode(BITMAP)", .elembits = 64, .domain = DOM_STRICT16, .maxlen = 60000, .bound = b_adaptive, .boundname = "varintAdaptiveMaxSize", .encode = e_ad_bitmap, .decode = d_adaptive, .decode_cap = c_adaptive, .param = VARINT_ADAPTIVE_BITMAP},
     {.name = "adaptive.TAGGED", .encname = "varintAdaptiveEncodeWith(TAGGED)", .decname = "varintAdaptiveDecode(TAGGED)", .elembits = 64, .bound = b_adaptive, .boundname = "varintAdaptiveMaxSize", .encode = e_ad_tagged, .decode = d_adaptive, .decode_cap = c_adaptive, .param = VARINT_ADAPTIVE_TAGGED},
